@@ -96,12 +96,14 @@ func infoOf(b []byte) *streamInfo {
 var c09Shadow accum // shadow of the package-level distance accumulator over this worker's whole history
 
 type schedReader struct {
-	s    *sched
-	id   int
-	b    []byte
-	pos  int
-	info *streamInfo
-	pred *[]uint32
+	s     *sched
+	id    int
+	b     []byte
+	pos   int
+	info  *streamInfo
+	pred  *[]uint32
+	fine  bool // one byte per Read: scheduling points inside a record's parsing
+	chunk int  // start offset of the chunk being delivered
 }
 
 func (r *schedReader) Read(p []byte) (int, error) {
@@ -123,8 +125,17 @@ func (r *schedReader) Read(p []byte) (int, error) {
 	if n > len(p) {
 		n = len(p)
 	}
-	if r.info.isCSD[r.pos] && r.pred != nil {
-		*r.pred = append(*r.pred, c09Shadow.add(r.info.lossy[r.pos], 0xFFF))
+	if r.fine {
+		n = 1
+	}
+	if i > 0 && r.info.bounds[i-1] == r.pos {
+		r.chunk = r.pos
+	} else if i == 0 {
+		r.chunk = 0
+	}
+	// the record is parsed and added after its last byte was delivered and before the next Read
+	if r.pos+n == end && r.info.isCSD[r.chunk] && r.pred != nil {
+		*r.pred = append(*r.pred, c09Shadow.add(r.info.lossy[r.chunk], 0xFFF))
 	}
 	copy(p, r.b[r.pos:r.pos+n])
 	r.pos += n
@@ -144,10 +155,13 @@ func (w *schedWriter) Write(p []byte) (int, error) {
 	return w.w.Write(p)
 }
 
+var c09Fine bool // scheduling points at every byte (set per scenario, single-threaded controller)
+
 func c09Env(s *sched, id int, pred *[]uint32) opEnv {
+	fine := c09Fine
 	return opEnv{
-		Reader:    func(b []byte) io.Reader { return &schedReader{s: s, id: id, b: b, info: infoOf(b), pred: pred} },
-		RawReader: func(b []byte) io.Reader { return &schedReader{s: s, id: id, b: b, info: infoOf(b)} },
+		Reader:    func(b []byte) io.Reader { return &schedReader{s: s, id: id, b: b, info: infoOf(b), pred: pred, fine: fine} },
+		RawReader: func(b []byte) io.Reader { return &schedReader{s: s, id: id, b: b, info: infoOf(b), fine: fine} },
 		Writer:    func(w io.Writer) io.Writer { return &schedWriter{s: s, id: id, w: w} },
 	}
 }
@@ -156,7 +170,7 @@ func init() {
 	vx.Register(&vx.Prop{
 		ID:    "C09",
 		Level: "model_checking",
-		Rule: "schedule exploration with a cooperative scheduler (one goroutine runs at a time; scheduling points = every Read / Write the library performs on the harness-owned readers and writers, with reads cut at record boundaries so that every record's add to the File is its own step): 2 threads x 1 call each for every ordered pair of the 13 pool calls, explored without preemption bound; 3 threads and 2 calls per thread on selected calls with preemption bound 2 (thorough 3). Oracle: every thread's result equals its solo result; no deadlock; replay of a schedule reproduces the same trace. " +
+		Rule: "schedule exploration with a cooperative scheduler (one goroutine runs at a time; scheduling points = every Read / Write the library performs on the harness-owned readers and writers, with reads cut at record boundaries so that every record's add to the File is its own step; the decoding calls are explored again with one-byte reads, i.e. scheduling points inside a record's parsing): 2 threads x 1 call each for every ordered pair of the 13 pool calls, explored without preemption bound; 3 threads and 2 calls per thread on selected calls with preemption bound 2 (thorough 3). Oracle: every thread's result equals its solo result; no deadlock; replay of a schedule reproduces the same trace. " +
 			"Then a separate free-running pass of the same bodies under the Go race detector (8 goroutines, start barrier, repeated rounds); every report is classified by the functions on its stacks. states = distinct global interleavings (traces); transitions = scheduling decisions; traces = executions",
 		Assumptions: []string{"sequentially consistent interleavings at Read/Write granularity; finer-grained interleavings and memory-model effects are left to the free-running race-detector pass, which samples", "accumulated distances are attributed to the listed finding only when the shadow accumulator, fed in the explored interleaving order, predicts them exactly"},
 		Run:         runC09,
@@ -354,6 +368,25 @@ func runC09(w *vx.W) {
 			}
 		}
 	}
+	// byte-granularity scheduling points (inside a record's parsing) for the decoding calls
+	fineBound := 1
+	if !w.Quick() {
+		fineBound = 2
+	}
+	c09Fine = true
+	for _, a := range []int{0, 1, 3, 4, 5, 12} {
+		for _, b := range []int{0, 1, 2, 5, 12} {
+			k++
+			if !w.Mine(k) {
+				continue
+			}
+			if w.Expired("fine-grained pairs") {
+				break
+			}
+			explore([][]int{{a}, {b}}, fineBound, fmt.Sprintf("pairs-byte-granularity-bound%d", fineBound))
+		}
+	}
+	c09Fine = false
 	for h := range traces {
 		w.State(h)
 	}
